@@ -5,17 +5,17 @@ ROOT = os.path.dirname(os.path.abspath(__file__))
 
 CHECKS = {
  "C19": dict(engine="govm", technique="stateless model checking: exhaustive interleaving exploration of the real gpool package under a controlled scheduler (happens-before fingerprint pruning)",
-             text="Every interleaving (unbounded for <=5 goroutines, pre-emption bound 2/3 above) of submitters, dispatcher, workers and Release on the real gpool code is executed; each execution is checked for exactly-once, parallelism bound, deadlock and leftover goroutines.",
+             text="Every interleaving (unbounded for <=5 goroutines, pre-emption bound 2/3 above) of submitters, dispatcher, workers and Release on the real gpool code is executed; each execution is checked for exactly-once, parallelism bound, deadlock and leftover goroutines. Listener part: the real TarsServer (TCP and UDP) with MaxInvoke 1-2 and N+2 slow requests under deviation-bounded schedules; peak handler concurrency and exactly-once from the servant log.",
              note="Scheduling points at channel operations only (gpool uses nothing else); Go's FIFO waiter order not assumed; fingerprint pruning assumes data-race freedom.", ref="§5 C19"),
  "C20": dict(engine="govm", technique="stateless model checking: exhaustive interleaving + select-outcome exploration of the real rogger flush path under a controlled scheduler with virtual time",
-             text="All interleavings of 1-3 logging goroutines, the background flusher and FlushLogger, including both outcomes of every select with several ready cases, on the real rogger code; every entry logged before the flush must be written exactly once, in order, as one write, before FlushLogger returns.",
+             text="All interleavings of 1-3 logging goroutines, the background flusher and FlushLogger, including both outcomes of every select with several ready cases, on the real rogger code; every entry logged before the flush must be written exactly once, in order, as one write, before FlushLogger returns. Panic part: tars.CheckPanic on the instrumented tars tree with 1-3 overlapping panics until os.Exit; entries logged before the first panic must be written at exit.",
              note="Virtual clock; interleavings at channel/mutex/context operations of the instrumented package.", ref="§5 C20"),
 }
 CHECKS["C07"] = dict(engine="govm", technique="stateless model checking: every partition of the byte stream (environment choices) x schedules within a deviation bound, on the real receive loops over an in-memory TCP",
-             text="The real tcpHandler.recv and connection.recv are run on an in-memory TCP connection; every composition of 1-3 packet streams into chunks, illegal lengths at every position, max-length boundaries, chunk menus around the 4096-byte read buffer, worker pool and a parallel connection; deliveries compared with what was sent, connection state after illegal lengths.",
+             text="The real tcpHandler.recv and connection.recv are run on an in-memory TCP connection; every composition of 1-3 packet streams into chunks, illegal lengths at every position, max-length boundaries, chunk menus around the 4096-byte read buffer, worker pool and a parallel connection; deliveries compared with what was sent, connection state after illegal lengths. Also: a client connection that ends inside a packet followed by a reconnect of the same client, and packets beyond 64 KiB followed by small ones in the same read.",
              note="vnet models TCP as seen through net.Conn (ordered reliable stream, FIN, deadlines); partitions exact because the peer waits for the reader to drain; schedules: default + all with <=1/2 deviations for selected partitions; no fingerprint pruning.", ref="§5 C07")
 CHECKS["C08"] = dict(engine="govm", technique="stateless model checking: deviation-bounded exhaustive schedule exploration (3 default policies) x scripted-peer behaviours of the real client call path over an in-memory network with virtual time",
-             text="2-3 concurrent TarsInvoke callers on one proxy against a scripted server that answers in every order, duplicates replies, injects unknown-id / push / one-way packets and places a reply before/at/after the deadline; all schedules within 1 deviation un-pruned and 2-3 deviations with fingerprint pruning, from three default scheduling policies; plus all interleavings (unbounded) of 2-3 concurrent request-id generators around the wrap-around values.",
+             text="2-3 concurrent TarsInvoke callers on one proxy against a scripted server that answers in every order, duplicates replies, injects unknown-id / push / one-way packets and places a reply before/at/after the deadline; all schedules within 1 deviation un-pruned and 2-3 deviations with fingerprint pruning, from three default scheduling policies; plus all interleavings (unbounded) of 2-3 concurrent request-id generators around the wrap-around values. Also: callers with a proxy object each for the same remote object, and a reply cut by a close while the next caller reconnects.",
              note="Virtual clock (exact deadlines); scripted server uses an independent mini-codec; pruned runs assume data-race freedom.", ref="§5 C08")
 CHECKS["C17"] = dict(engine="enum", technique="bounded-exhaustive enumeration of configuration documents (all line sequences / byte strings up to a bound) against an independent line-based reference reader",
              text="Every well-nested document of <=7/8 lines over the line alphabet, every framing variant, every sequence of line forms, every malformed sequence of <=5 lines and every byte string of <=4/6 bytes over 12 byte classes is parsed by the real conf package and compared node by node (keys, values, domain/key/line listings, typed getters) with a reference reader; malformed input must give an error or a complete representation.",
@@ -24,13 +24,13 @@ CHECKS["C18"] = dict(engine="enum", technique="bounded-exhaustive enumeration of
              text="Every endpoint of the option-menu product in canonical and reversed order, every ordered selection of <=4 options x spacings, every prefix, every string of <=5/6 symbols over a 12-symbol alphabet, every ':'-joined address list through the real newEndpointManager, and the Endpoint->EndpointF->Endpoint round trip over the field-menu product; fields, defaults, weight normalisation, key equality, no panic.",
              note="Reference parser written from the documented option syntax; behaviours of the flag package outside that grammar (-h=x, base prefixes) are not judged.", ref="§5 C18")
 CHECKS["C09"] = dict(engine="govm", level="fault_enumeration", technique="fault enumeration + stateless model checking: every scripted peer behaviour x deadline source x caller count, each under all schedules within the deviation bound, on the real client call path with virtual time",
-             text="Peer behaviours (answers, silent, late, closes at three points, garbage length, garbage body, refuses, black-holed dial, zero send window) x deadline source (configured, per-call, context) x 1-4 callers; every call must return by deadline (+ dial bound + one wheel tick) on the virtual clock, and after 3 s of quiescence the pending-reply table, queue counters and delivery goroutines must be gone.",
+             text="Peer behaviours (answers, silent, late, closes at three points, garbage length, garbage body, refuses, black-holed dial, zero send window) x deadline source (configured, per-call, context) x 1-4 callers; every call must return by deadline (+ dial bound + one wheel tick) on the virtual clock, and after 3 s of quiescence the pending-reply table, queue counters and delivery goroutines must be gone. Also: a reply at deadline -1/0/+1/+50 ms followed by further calls (their payloads compared; <=2-3 deviations inside the 20 ms around the deadline), and several proxy objects for one remote object with per-proxy counters.",
              note="Exact virtual-time oracle; schedules: default + <=1 deviation from three default policies (2 with pruning in thorough).", ref="§5 C09")
 CHECKS["C11"] = dict(engine="govm", technique="stateless model checking: close point x delay menu x deviation-bounded exhaustive schedules (3 default policies) of the real client transport against a scripted closing server, virtual time",
-             text="Scripted server answers everything and closes (FIN / reconnect notice + FIN / RST) after response 1 or 2; the next call(s) are issued 1/999/1000/1001/1500 ms after the close, sequentially or from two callers; all schedules within 1 deviation (2 with pruning in thorough) from three default policies. Post-close calls must succeed, nothing may be written to a connection whose receiver saw EOF, the newest healthy connection must not be flagged closed, nothing may be stranded in the send queues.",
+             text="Scripted server answers everything and closes (FIN / reconnect notice + FIN / RST) after response 1 or 2; the next call(s) are issued 1/999/1000/1001/1500 ms after the close, sequentially or from two callers; all schedules within 1 deviation (2 with pruning in thorough) from three default policies. Post-close calls must succeed, nothing may be written to a connection whose receiver saw EOF, the newest healthy connection must not be flagged closed, nothing may be stranded in the send queues. Also idle closes exactly at / beside the client sender's 1 s poll with <=2-3 deviations within 5 ms of the close.",
              note="Calls at the very instant of the close are out of the property's scope and not judged; vnet log supplies 'who wrote what when'.", ref="§5 C11")
 CHECKS["C10"] = dict(engine="govm", technique="explicit matrix enumeration through the real Protocol.Invoke + stateless model checking of the real TarsServer (TCP and UDP) under deviation-bounded schedules, virtual time",
-             text="(a) every cell of version{TARS,TUP,JSON} x packet type x function{ok,error,*tars.Error,ping,unknown,void} x own-timeout{none,ample,elapsed in queue} x ids through the real Protocol.Invoke with the real generated AdminF dispatcher; (b) the real TarsServer over in-memory TCP and UDP, pool 0/1/2, handle timeout 0/T, handler durations 0/T-e/T/T+e, 2-4 pipelined requests on 1-2 connections, all schedules within 2 (3) deviations from three default policies. Responses decoded by an independent codec: exactly one per two-way request, none per one-way, id/version/packet type echoed, error code and message, queue-timeout code, timeout error for over-long handlers.",
+             text="(a) every cell of version{TARS,TUP,JSON} x packet type x function{ok,error,*tars.Error,ping,unknown,void} x own-timeout{none,ample,elapsed in queue} x ids through the real Protocol.Invoke with the real generated AdminF dispatcher; (b) the real TarsServer over in-memory TCP and UDP, pool 0/1/2, handle timeout 0/T, handler durations 0/T-e/T/T+e, 2-4 pipelined requests on 1-2 connections, all schedules within 2 (3) deviations from three default policies. Responses decoded by an independent codec: exactly one per two-way request, none per one-way, id/version/packet type echoed, error code and message, queue-timeout code, timeout error for over-long handlers. Also requests ending exactly on the 4096-byte read buffer and short caller timeouts at several phases of the wall-clock second.",
              note="TUP responses have no iRet member: the result code is looked for in the status map (STATUS_RESULT_CODE/STATUS_RESULT_DESC).", ref="§5 C10")
 CHECKS["C02"] = dict(engine="enum", technique="bounded-exhaustive enumeration of (type, tag, value) triples (complete for 8/16-bit types x 256 tags, all 2^32 float32 patterns in thorough, boundary lattices otherwise) against an independent reference encoder",
              text="Every value of bool/int8/uint8/int16/uint16 x all 256 tags, integer/float/string lattices x 256 tags, and every narrower encoding read by every wider reader: bytes written by codec.Buffer must equal the reference encoder, the value read back must be bit-identical, the reader must stop exactly at the end of the field (in-package offset accessor + sentinel field).",
